@@ -10,7 +10,7 @@ THEOREMS = [_T + n for n in [
     "remote_ip_source", "remote_ip_valid_or_socket", "remote_ip_spec_partial", "remote_ip_spec_refuted",
     "protocol_http_or_https", "protocol_observed", "unapply_restores", "ctx_restored_after_run", "no_leak", "no_leak_trace",
     "leak_without_finish",
-    "remote_ip_numeric_trace", "remote_ip_numeric", "isValidIp_numeric", "remote_ip_allowed", "finish_raises_keeps_rewrite",
+    "remote_ip_numeric_trace", "remote_ip_numeric", "isValidIp_numeric", "remote_ip_allowed", "finish_raises_keeps_rewrite", "no_leak_conn",
 ]]
 TRUSTED = [
     "libc getaddrinfo(AI_NUMERICHOST) is a parameter (`gai`) of the model of is_valid_ip (C32.isValidIp: the pre-checks of the fixed "
@@ -43,9 +43,10 @@ CLAUSE_CAVEATS = [
     "theorems reach it from the code only through the ASSUMED resolver contract ResolverNumeric (getaddrinfo(AI_NUMERICHOST) accepts "
     "nothing but numeric-host text once is_valid_ip's pre-checks passed) — libc is not modelled. The oracle does not depend on that "
     "assumption (it applies Spec.numericIP to the observed remote_ip), but it sees only this platform's resolver",
-    "a delegate that raises in _ProxyAdapter.finish leaves the context rewritten (modelled as event finishRaises, generated with a "
-    "raising callable); that no later request is served on that connection is the tie's observation (request count + leak oracle), "
-    "not a Lean theorem — the closing is _server_request_loop's (C05); likewise for a header block that does not parse (400, close)",
+    "no_leak_conn covers the early ends of a connection (delegate raising in _ProxyAdapter.finish so that the restore is skipped, "
+    "unparsable header block, request not kept alive, peer leaving) under the model's rule that _server_request_loop reads no further "
+    "request then (connEvents); that the real loop does stop there is observed by the tie (the model decides where the connection "
+    "ends, request count and contexts are compared on every case), not derived from http1connection.py",
 ]
 CLAUSES = {
     "remote_ip is a numeric IP taken from the proxy headers only when they supply one, X-Real-Ip before the rightmost untrusted "
@@ -57,7 +58,9 @@ CLAUSES = {
         "(+ remote_ip_spec_refuted: known finding, an all-trusted X-Forwarded-For list yields its leftmost entry)",
     "protocol is http or https": "protocol_http_or_https, protocol_observed",
     "values derived from one request never affect a later request on the same connection":
-        "no_leak, no_leak_trace, unapply_restores, ctx_restored_after_run (leak_without_finish shows the reliance on C05)",
+        "no_leak, no_leak_trace, unapply_restores, ctx_restored_after_run (leak_without_finish shows the reliance on C05), "
+        "no_leak_conn (whole connection incl. its early ends: the request objects built are exactly those of servedReqs, each equal "
+        "to what the request observes on a fresh connection), finish_raises_keeps_rewrite",
 }
 PARALLEL = True
 CASE_TIMEOUT = 90
@@ -357,20 +360,23 @@ def _ends_raising(case):
     return k >= 0 and _raising(case, case["reqs"][k]) and not _aborted(case)
 
 
+def _outcome(case, k, r):
+    n = len(case["reqs"])
+    if k == n - 1 and case["end"] == "abort-in-body" and r["body"]:
+        return "A"                       # the peer goes away inside the body: on_connection_close
+    if _raising(case, r):
+        return "X"                       # delegate.finish() raises: no restore; the connection is closed
+    ver = r.get("version", "1.1")
+    if ver == "1.0" or (k == n - 1 and case["end"] == "close-header" and ver != "1.0ka"):
+        return "L"
+    return "K"
+
+
 def model_requests(case, impl):
-    evs = []
-    m = _reached(case)
-    for k, r in enumerate(case["reqs"][:m]):
-        evs.append([atom("H"), r["lines"]])
-        if r.get("bad"):
-            pass                             # HTTPInputError before headers_received: the adapter sees nothing, 400, connection closed
-        elif k == m - 1 and _aborted(case):
-            evs.append([atom("C")])          # the peer goes away inside the body: on_connection_close
-        elif _raising(case, r):
-            evs.append([atom("X")])          # delegate.finish() raises: no restore; the connection is closed
-        else:
-            evs.append([atom("F")])
-    return [line(ID, "trace", _sock(case), _proto(case), case["trusted"], impl["gai"], evs),
+    # ALL requests go to the model; where the connection ends (unparsable block, not kept alive, raising delegate, peer gone) is
+    # decided by the model's `connEvents`
+    reqs = [[r["lines"], atom(_outcome(case, k, r))] for k, r in enumerate(case["reqs"])]
+    return [line(ID, "conn", _sock(case), _proto(case), case["trusted"], impl["gai"], reqs),
             line(ID, "valid", impl["cands"], impl["gai"])]
 
 
@@ -392,13 +398,14 @@ def model_result(case, replies):
     steps = _py(replies[0])[0]
     orig = [_sock(case), _proto(case)]
     obs = []
-    n = _expected_count(case)
     for o, ip, proto in steps:
-        if isinstance(o, list) and len(obs) < n:
+        if isinstance(o, list):
             # a callable sees the context still rewritten; a RequestHandler method runs after _ProxyAdapter.finish
             obs.append(o + (o if case["kind"] == "callable" else orig))
+    if _aborted(case) and len(steps) >= 2 and steps[-1][0] == "N" and isinstance(steps[-2][0], list) and obs:
+        obs.pop()       # the request object of a request whose body never completes is built but never handed to the callback
     # `mid` is read when every byte has been delivered: before the final close event of an aborted request
-    mid = steps[-2][1:] if _aborted(case) else (steps[-1][1:] if steps else orig)
+    mid = steps[-2][1:] if (steps and steps[-1][0] == "N" and _aborted(case)) else (steps[-1][1:] if steps else orig)
     final = steps[-1][1:] if steps else orig
     return {"obs": obs, "mid": mid, "final": final, "valid": _py(replies[1])[0],
             "refused": bool(steps) and steps[-1][0] == "BadHeaders"}
